@@ -2,6 +2,7 @@ package checks
 
 import (
 	"fmt"
+	"sort"
 	"strings"
 
 	"verif/corpus"
@@ -129,7 +130,7 @@ func C10(c *Ctx) int {
 				c.HandleGenCex(o, it, r)
 			}
 			// whole-language product for the default mode of selected items
-			prodItems := map[string]bool{"L-kw1": true, "L-pfx": true, "L-ovl": true, "L-tri": true, "L-ops": true, "L-ng1": true, "L-ng7": true}
+			prodItems := map[string]bool{"L-kw1": true, "L-ovl": true, "L-tri": true, "L-ng7": true, "L-mode1": true, "L-act-poppush": true}
 			for _, it := range items2 {
 				if !(it.ExitOK && it.Files) {
 					continue
@@ -151,6 +152,21 @@ func C10(c *Ctx) int {
 // the default mode of one item; every pair is one exploration deciding the
 // step for all runes at once.
 func (c *Ctx) lexProduct(o *Outcome, prog *symgo.Program, it *GenItem, maxPairs int, byName map[string]*GenItem) {
+	modes := []int{0}
+	for mi := range it.Lexer.ModeAccess(6) {
+		modes = append(modes, mi)
+	}
+	sort.Ints(modes)
+	for _, mi := range modes {
+		c.lexProductMode(o, prog, it, mi, maxPairs, byName)
+	}
+	if o.Extra == nil {
+		o.Extra = map[string]any{}
+	}
+	o.Extra["product_modes_"+it.Name] = fmt.Sprintf("%d of %d modes reachable through non-extendable matches", len(modes), len(it.Lexer.Modes))
+}
+
+func (c *Ctx) lexProductMode(o *Outcome, prog *symgo.Program, it *GenItem, mi int, maxPairs int, byName map[string]*GenItem) {
 	type job struct{ access []int }
 	seen := map[string]bool{"": true}
 	work := []job{{nil}}
@@ -159,11 +175,11 @@ func (c *Ctx) lexProduct(o *Outcome, prog *symgo.Program, it *GenItem, maxPairs 
 		j := work[0]
 		work = work[1:]
 		pairs++
-		params := map[string]int{"alen": len(j.access)}
+		params := map[string]int{"alen": len(j.access), "mode": mi}
 		for i, a := range j.access {
 			params[fmt.Sprintf("a%d", i)] = a
 		}
-		h := Harness{Name: fmt.Sprintf("gen.Product[%s,pair=%d]", it.Name, pairs), Func: "H_Product", Params: params, Quiet: true, CollectAll: true,
+		h := Harness{Name: fmt.Sprintf("gen.Product[%s,mode=%d,pair=%d]", it.Name, mi, pairs), Func: "H_Product", Params: params, Quiet: true, CollectAll: true,
 			Bounds: fmt.Sprintf("pair reached by the access string %v; every rune -1..U+10FFFF", j.access)}
 		r, err := c.RunGenHarness(prog, it, h)
 		if err != nil {
@@ -196,8 +212,8 @@ func (c *Ctx) lexProduct(o *Outcome, prog *symgo.Program, it *GenItem, maxPairs 
 		o.Extra = map[string]any{}
 	}
 	closed := len(work) == 0
-	o.Extra["product_"+it.Name] = map[string]any{"pairs": pairs, "closed": closed}
+	o.Extra[fmt.Sprintf("product_%s_mode%d", it.Name, mi)] = map[string]any{"pairs": pairs, "closed": closed}
 	if !closed {
-		o.Inconclusive = append(o.Inconclusive, fmt.Sprintf("gen.Product[%s]: more than %d pairs, set not closed", it.Name, maxPairs))
+		o.Inconclusive = append(o.Inconclusive, fmt.Sprintf("gen.Product[%s,mode=%d]: more than %d pairs, set not closed", it.Name, mi, maxPairs))
 	}
 }
